@@ -35,7 +35,7 @@ META = {
                     'by a one-letter marker token; no catcode op inside an argument group; \\gdef writes the bottom frame and '
                     'may be shadowed by a live local definition (lookup yields the innermost live definition)',
                     'no fault space exists for this property (sequential refinement only)'],
-    'probe_names': ['dfs_exhaustive', 'box_inside_math', 'declaration_inside_its_environment_form', 'catcode_char_directly_after_group_end', 'locals_sweep', 'unknown_environment_in_math', 'package_loaded_inside_group', 'user_environment', 'fresh_name_global_in_nesting', 'catalogue_scope', 'catalogue_dimen_spelling', 'catalogue_raise', 'declaration_frame', 'change_after_declaration_restored', 'char_let_shadowed', 'local_def_restored', 'global_def_survives', 'let_restored', 'catcode_restored', 'if_survives', 'counter_survives',
+    'probe_names': ['dfs_exhaustive', 'catalogue_package_macro', 'box_inside_math', 'declaration_inside_its_environment_form', 'catcode_char_directly_after_group_end', 'locals_sweep', 'unknown_environment_in_math', 'package_loaded_inside_group', 'user_environment', 'fresh_name_global_in_nesting', 'catalogue_scope', 'catalogue_dimen_spelling', 'catalogue_raise', 'declaration_frame', 'change_after_declaration_restored', 'char_let_shadowed', 'local_def_restored', 'global_def_survives', 'let_restored', 'catcode_restored', 'if_survives', 'counter_survives',
                     'nested_depth_ge3', 'env_inside_group', 'group_inside_env', 'math_group', 'cell_scope', 'argument_group',
                     'gdef_shadowed', 'catcode_cow_two_frames'],
     'shrink_budget': 400,
@@ -637,7 +637,8 @@ def prepare():
     global CATALOGUE
     if not CATALOGUE:
         from .. import macrofuzz
-        CATALOGUE = macrofuzz.build()
+        from . import c17
+        CATALOGUE = macrofuzz.build(c17.PACKAGES)        # Base.LaTeX and every package that loads offline
 
 
 # --------------------------------------------------------------------------
@@ -648,8 +649,8 @@ def prepare():
 # with blanks (LaTeX: "illegal unit of measure", processing goes on).
 
 CAT_INNER = r'\def\na{IN}\let\nb=\nc \catcode`\@=11\relax '
-CAT_TAIL = r' [x\na x\nb x\pr@be]END'
-CAT_EXPECT = '[xna0xnb0xO@be]END'
+CAT_TAIL = r' [x\na x\nb x\pr@be x~y x$z$ x% comment' + '\n' + r'w]END'      # (~, $ and % must have their usual categories again)
+CAT_EXPECT = '[xna0xnb0xO@bexyxzxw]END'
 DIMEN_SPELLINGS = ['{2pt}', '{2}', '{}', '{ 2pt }', '{2 pt}', r'{.5\textwidth}', '{-1}']
 
 
@@ -659,6 +660,9 @@ def catalogue_ops():
     out = []
     for k, ent in enumerate(CATALOGUE):
         name, text, args, is_env = ent[:4]
+        if name in ('Verbatim', 'BVerbatim', 'LVerbatim', 'lstlisting', 'comment', 'externaldocument', 'externalcitedocument'):
+            continue          # verbatim-like bodies and file-name arguments: the inserted definitions are not executed there
+        pkg = ent[4] if len(ent) > 4 else None
         has_dimen = bool(re.search(r':\s*(dimen|length|dimension|glue|skip)', args or '', re.I))
         for sp in (DIMEN_SPELLINGS if has_dimen else ['{2pt}']):
             t = macrofuzz.synth(name, args, is_env, k, dimen=sp)
@@ -673,13 +677,16 @@ def catalogue_ops():
                 t2 = t[:m.start()] + '{' + CAT_INNER + 'w}' + t[m.end():]
             else:
                 t2 = t[:m.start()] + ' ' + CAT_INNER + ' body ' + t[m.end():]
-            out.append({'op': 'CAT', 'name': name, 'text': t2, 'dimen': sp})
+            out.append({'op': 'CAT', 'name': name, 'text': t2, 'dimen': sp, 'pkg': pkg})
     return out
 
 
 def run_cat(op):
     from plasTeX.TeX import TeX
-    source = PREAMBLE + 'A ' + op['text'] + CAT_TAIL + r'\end{document}'
+    pre = PREAMBLE
+    if op.get('pkg'):
+        pre = pre.replace(r'\begin{document}', r'\usepackage{%s}\begin{document}' % op['pkg'])
+    source = pre + 'A ' + op['text'] + CAT_TAIL + r'\end{document}'
     tex = TeX()
     tex.input(source)
     doc = tex.parse()
@@ -1026,9 +1033,11 @@ def execute_catalogue(record, res):
         elif not got.endswith(CAT_EXPECT):
             tail = got[got.rfind('['):]
             what = 'macro' if 'xna0' not in tail else ('let' if 'xnb0' not in tail else 'catcode')
+            if op.get('pkg'):
+                probes['catalogue_package_macro'] = 1
         if what:
             viol.append({'sig': 'C04|tex|catalogue|%s' % what,
-                         'detail': {'macro': op['name'], 'source': source[len(PREAMBLE):][:600], 'got_tail': got[-80:], 'depth': depth,
+                         'detail': {'macro': op['name'], 'package': op.get('pkg'), 'source': source[-700:], 'got_tail': got[-80:], 'depth': depth,
                                     'expected_tail': CAT_EXPECT}})
             break
     res['violations'] = viol
